@@ -78,7 +78,7 @@ pub fn all() -> Vec<Prop> {
         },
         Prop {
             id: "C03",
-            level: "exploration",
+            level: "fault_enumeration",
             rule: "one evaluation = one simulated cluster execution with crashes/restarts; oracle A (vote history over all incarnations) and oracle B (write-ahead: durable state covers every message at the instant it is sent); non-trivial = at least one restart of a correct node that had voted, distinct = distinct event-log fingerprint. Population crashenum (fault enumeration): consecutive evaluations are the crash points of one base run (committee of 2-4, about ten views, network faults, late duplicates, Byzantine validators where the weights allow): correct node j dies inside its k-th durable write, write applied or lost, for every j, every k up to 40 and both outcomes, is restarted from its durable state and is shown old messages again; runs are deterministic, so the execution up to the crash is the base run's; non-trivial = the crash fired (points beyond a node's last write or for an absent node do not exist); probe crashenum_base_has_more_writes_than_enumerated counts evaluations of bases not covered exhaustively",
             batches: |t| {
                 let mut b = bft_batches(&[("faultfree", 16), ("crashy", 200)], &[("faultfree", 100), ("crashy", 6000)], t);
